@@ -507,6 +507,16 @@ def temperatureCell {M : Type} (bal : α → α → Bal α M) (i : TempIn α M) 
       tempMain (bal crfac) i
 
 
+/-! ## normalisation of the intensity counters in the drivers
+
+`TaskBasedIonizationSimulation::run` (temperature / ionization step) and
+`TaskBasedRadiationHydrodynamicsSimulation` divide every metal and helium counter by the
+abundance of its element before the balance is evaluated:
+`if (abundance > 0.) J = J / abundance;` (the statement text is tied by `tools/props/c06.py`). -/
+
+/-- one counter: `if (abundance > 0.) { J = J / abundance; }` -/
+def normalise (J A : α) : α := if 0.0 < A then J / A else J
+
 /-! ## `TemperatureCalculator::compute_cooling_and_heating_balance` (TemperatureCalculator.cpp 207-501)
 
 Everything of the balance function except `LineCoolingData::get_cooling`, which stays an
